@@ -308,3 +308,54 @@ def prims_fidelity(base_seed, n_seeds=120):
     for b in bad[:8]:
         print("  MISMATCH", b, "real:", repr(real[b[0]])[:200])
     return 2 if bad else 0
+
+
+# --------------------------------------------------------------------------
+# reach: nothing the generators used to produce has silently stopped being produced
+# --------------------------------------------------------------------------
+REACH_MIN = 8   # a feature counts as "established" when the baseline run saw it in at least this many cases
+
+
+def reach(update=False):
+    """Compares the coverage of the evidence files of the last quick runs (fault kinds that fired, probes,
+    scenario features of the generated cases) with the committed baseline `reach_baseline.json`: everything the
+    baseline saw at least REACH_MIN times must still be seen.  A generator edit that makes a scenario template
+    unreachable (it happened: DESIGN 13, C-14) shows here; the registered checks themselves stay silent about it
+    because nothing fails when nothing is tried.  `--update` rewrites the baseline from the current evidence."""
+    import glob
+    import json
+    import os
+
+    root = os.path.dirname(os.path.abspath(__file__))
+    cur = {}
+    for f in sorted(glob.glob(os.path.join(root, "evidence", "C??.json"))):
+        e = json.load(open(f))
+        c = e["coverage"]
+        cur[e["property_id"]] = {
+            "tier": e["tier"],
+            "fault_kinds_fired": c.get("fault_kinds_fired", {}),
+            "probes": c.get("probes", {}),
+            "scenario_features": c.get("scenario_features", {}),
+        }
+    path = os.path.join(root, "reach_baseline.json")
+    if update:
+        base = {p: {k: {n: v for n, v in d[k].items() if v >= REACH_MIN} for k in ("fault_kinds_fired", "probes", "scenario_features")}
+                for p, d in cur.items()}
+        with open(path, "w") as f:
+            json.dump(base, f, indent=0, sort_keys=True)
+        print(f"reach baseline rewritten: {sum(len(x) for d in base.values() for x in d.values())} established features "
+              f"over {len(base)} properties")
+        return 0
+    base = json.load(open(path))
+    lost = []
+    n = 0
+    for p, d in sorted(base.items()):
+        for k, names in d.items():
+            for name in names:
+                n += 1
+                if not cur.get(p, {}).get(k, {}).get(name):
+                    lost.append(f"{p} {k} {name!r} (baseline: {names[name]} cases)")
+    for x in lost:
+        print("REACH-LOST", x)
+    print(f"reach self-test: {n} established features over {len(base)} properties, lost: {len(lost)}")
+    return 1 if lost else 0
